@@ -104,6 +104,50 @@ pub fn run(run: &mut Run) -> PResult {
     }
     run.generator("all pairs of deck cards", "exhaustive", Some(2704), n, n - 52, "non-trivial = pairs of different cards; integer comparison vs (rank, suit) lexicographic; blank below all");
     count_soak(run, "sorting six- and seven-slot hands of real cards (and a few other hands)", (1 << 25) + (1 << 12), &soak_step)?;
+    // absence soak: one hand sorted once, then a hand of *other* cards sorted 2^24 + 2^12 times, then
+    // hands holding the first cards again (state that goes stale while an input is not seen)
+    if !run.is_twin() {
+        let d = card::DECK;
+        let first: [u32; 7] = [d[0], d[9], d[18], d[27], d[36], d[45], d[50]];
+        let other: [u32; 7] = [d[3], d[12], d[21], d[30], d[39], d[48], d[5]];
+        let sorted = |a: [u32; 7]| {
+            let mut w = a;
+            w.sort_unstable_by(|x, y| y.cmp(x));
+            w
+        };
+        let mut bad: Option<(Vec<u32>, Vec<u32>)> = None;
+        if Seven::from(first).sort().to_arr() != sorted(first) {
+            bad = Some((first.to_vec(), Seven::from(first).sort().to_arr().to_vec()));
+        }
+        let n_calls: u64 = (1 << 24) + (1 << 12);
+        let want_other = sorted(other);
+        let mut k = 0u64;
+        while bad.is_none() && k < n_calls {
+            let got = Seven::from(other).sort().to_arr();
+            if got != want_other {
+                bad = Some((other.to_vec(), got.to_vec()));
+            }
+            k += 1;
+            // around the 2^24 mark the first hand (and six-slot mixtures) are looked at after every call
+            if k >= (1 << 24) - 4 && bad.is_none() {
+                let got = Seven::from(first).sort().to_arr();
+                if got != sorted(first) {
+                    bad = Some((first.to_vec(), got.to_vec()));
+                }
+                let six = [first[0], other[1], first[2], other[3], first[4], other[5]];
+                let g6 = Six::from(six).sort().to_arr();
+                let mut w6 = six;
+                w6.sort_unstable_by(|x, y| y.cmp(x));
+                if bad.is_none() && g6 != w6 {
+                    bad = Some((six.to_vec(), g6.to_vec()));
+                }
+            }
+        }
+        run.generator("absence soak: a hand sorted once, another hand 2^24 + 2^12 times, then the first again", "call-count soak", None, n_calls, 0, "state that goes stale while an input is not seen for a power-of-two number of calls");
+        if let Some((ws, got)) = bad {
+            return run.violation("C11.sort", &card::render_hand(&ws), hand_json(&ws), &format!("after a soak of up to {} sorts of another hand: sort on [{}] gave [{}]", k, card::render_hand(&ws), card::render_hand(&got)));
+        }
+    }
     // E: small alphabet, all tuples
     {
         let a = card::DECK;
